@@ -11,7 +11,8 @@ Close Scope N_scope.
 Open Scope nat_scope.
 
 Notation rsl := (sl token).
-Notation rwf_l := (wf_l token tok_class op_level).
+Notation rwf_l := (wf_l token tok_class op_level true).
+Notation rabsorbs := (absorbs token).
 Notation rflat_l := (flat_l token).
 Notation rerase_l := (erase_l token t_text tok_num).
 Notation rsize_l := (size_l token).
@@ -29,7 +30,7 @@ Proof. apply pexpr_spelled. Qed.
 
 (* statement lists *)
 Theorem plist_real : forall (l : rsl) rest L,
-  rwf_l l -> closer_next token tok_class rest -> rsize_l l <= L ->
+  rwf_l l -> closer_next token tok_class rest -> (rabsorbs l = true -> st_skip rest = rest) -> rsize_l l <= L ->
   plist token tok_class t_text tok_num op_level L (rflat_l l ++ rest) = Ok (rerase_l l, rest).
 Proof. apply plist_spelled. Qed.
 
@@ -49,10 +50,10 @@ Proof. induction 1 as [|t w Ht _ IH]; [reflexivity|]. unfold st_skip in *. cbn. 
 
 Theorem parse_fb_spelled : forall w00 fb w0 nm w1 (l : rsl) w2 en w3,
   rtriv w00 -> t_kind fb = KFunctionBlock -> rtriv w0 -> t_kind nm = KIdentifier -> rtriv w1 ->
-  rwf_l l -> rtriv w2 -> t_kind en = KEndFunctionBlock -> rtriv w3 ->
+  rwf_l l -> rtriv w2 -> t_kind en = KEndFunctionBlock -> rtriv w3 -> (rabsorbs l = true -> w2 = []) ->
   parse_fb_tokens (w00 ++ fb :: w0 ++ nm :: w1 ++ rflat_l l ++ w2 ++ en :: w3) = OParsed (rerase_l l).
 Proof.
-  intros w00 fb w0 nm w1 l w2 en w3 H00 Hfb H0 Hnm H1 Hl H2 Hen H3.
+  intros w00 fb w0 nm w1 l w2 en w3 H00 Hfb H0 Hnm H1 Hl H2 Hen H3 Habs.
   pose proof (class_fb fb Hfb) as Cfb. pose proof (class_id nm Hnm) as Cnm. pose proof (class_endfb en Hen) as Cen.
   pose proof (wf_l_in_scope token tok_class op_level l w2 en KwEndPou w3 Hl H2 Cen H3) as Hscope.
   assert (Sfb : solid token tok_class fb) by (unfold solid; rewrite Cfb; discriminate).
@@ -71,6 +72,7 @@ Proof.
     fold st_skip. rewrite (skip_all_triv w3 H3). reflexivity.
   - exact Hl.
   - eapply closer_at; [exact H2 | exact Cen | reflexivity].
+  - intro Hb. rewrite (Habs Hb). cbn [app]. apply (skip_solid token tok_class en w3 Sen).
   - pose proof (proj1 (proj2 (size_bound_s token)) l) as B.
     repeat (rewrite app_length || cbn [Datatypes.length]). lia.
 Qed.
@@ -79,9 +81,9 @@ Qed.
    erasure forgets -- are read as the same list *)
 Corollary parse_fb_respelled : forall w00 fb w0 nm w1 (l : rsl) w2 en w3 w00' fb' w0' nm' w1' (l' : rsl) w2' en' w3',
   rtriv w00 -> t_kind fb = KFunctionBlock -> rtriv w0 -> t_kind nm = KIdentifier -> rtriv w1 ->
-  rwf_l l -> rtriv w2 -> t_kind en = KEndFunctionBlock -> rtriv w3 ->
+  rwf_l l -> rtriv w2 -> t_kind en = KEndFunctionBlock -> rtriv w3 -> (rabsorbs l = true -> w2 = []) ->
   rtriv w00' -> t_kind fb' = KFunctionBlock -> rtriv w0' -> t_kind nm' = KIdentifier -> rtriv w1' ->
-  rwf_l l' -> rtriv w2' -> t_kind en' = KEndFunctionBlock -> rtriv w3' ->
+  rwf_l l' -> rtriv w2' -> t_kind en' = KEndFunctionBlock -> rtriv w3' -> (rabsorbs l' = true -> w2' = []) ->
   rerase_l l = rerase_l l' ->
   parse_fb_tokens (w00 ++ fb :: w0 ++ nm :: w1 ++ rflat_l l ++ w2 ++ en :: w3) =
   parse_fb_tokens (w00' ++ fb' :: w0' ++ nm' :: w1' ++ rflat_l l' ++ w2' ++ en' :: w3').
@@ -92,7 +94,7 @@ Qed.
 (* the fuel the entry point supplies (three per token) is enough for every well-formed spelling, of any size and depth *)
 Corollary parse_fb_fuel : forall w00 fb w0 nm w1 (l : rsl) w2 en w3,
   rtriv w00 -> t_kind fb = KFunctionBlock -> rtriv w0 -> t_kind nm = KIdentifier -> rtriv w1 ->
-  rwf_l l -> rtriv w2 -> t_kind en = KEndFunctionBlock -> rtriv w3 ->
+  rwf_l l -> rtriv w2 -> t_kind en = KEndFunctionBlock -> rtriv w3 -> (rabsorbs l = true -> w2 = []) ->
   parse_fb_tokens (w00 ++ fb :: w0 ++ nm :: w1 ++ rflat_l l ++ w2 ++ en :: w3) <> OFuel.
 Proof. intros. rewrite parse_fb_spelled by assumption. discriminate. Qed.
 
@@ -106,11 +108,11 @@ Proof. vm_compute. reflexivity. Qed.
 Definition tkk (k : tok_kind) (tx : text) : token := mkToken k 0%N 0%N 0%N 0%N tx.
 Definition ex_ws : list token := [tkk KWhitespace [32%N]].
 Definition ex_list : rsl :=
-  SL token
+  LOne token (GStmts token
     (SsAssign token (tkk KIdentifier [120%N]) ex_ws (tkk KAssignment [58%N; 61%N]) ex_ws
        (SBin token (tkk KPlus [43%N]) BAdd (SName token (tkk KIdentifier [97%N]) ex_ws) [] ex_ws
           (SConst token (tkk KDigits [49%N]) CkInt)))
-    (MNil token) ex_ws (tkk KSemicolon [59%N]).
+    (MNil token) ex_ws (tkk KSemicolon [59%N])).
 Example ex_wf : rwf_l ex_list.
 Proof.
   unfold ex_list, ex_ws.
